@@ -18,6 +18,7 @@ CONSTANTS MaxPkts,       \* user packets written per scenario
           SingleCuts,    \* "none" | "class" | "all": single-cut chunkings
           CorrEveryK,    \* chunk sizes combined with a corruption (0 = one chunk)
           LenMasks,      \* masks tried on the low byte of a length
+          PadKs,         \* numbers of raw padding words a foreign plain writer may insert
           Plans          \* {} = every packet sequence up to MaxPkts; otherwise only these (coded, see Plan*)
 
 VARIABLES cls, cutm, plan
@@ -25,7 +26,8 @@ VARIABLES cls, cutm, plan
 mcvars == <<vars, cls, cutm, plan>>
 
 (* a plan fixes the crypto setting and the packet sequence (sampled by the harness):
-   plan = crypto + 100 * (d1 + 70 * d2 + 4900 * d3), d = 2 * rank of the shape in Shapes + flush + 1, 0 = end *)
+   plan = crypto + 100 * (d1 + 70 * d2 + 4900 * d3), d = 2 * rank of the shape in Shapes + flush + 1,
+   d = 60 + k: k raw padding words, 0 = end *)
 PlanCrypto(p) == p % 100
 PlanItem(p, i) == ((p \div 100) \div (IF i = 1 THEN 1 ELSE IF i = 2 THEN 70 ELSE 4900)) % 70
 PlanLen(p) == IF PlanItem(p, 1) = 0 THEN 0 ELSE IF PlanItem(p, 2) = 0 THEN 1 ELSE IF PlanItem(p, 3) = 0 THEN 2 ELSE 3
@@ -104,9 +106,13 @@ StartMC ==
 
 WriteMC ==
   /\ Len(wres) < (IF plan > 0 THEN PlanLen(plan) ELSE MaxPkts)
-  /\ \E s \in Shapes, f \in BOOLEAN :
-        /\ plan > 0 => PlanItem(plan, Len(wres) + 1) = 2 * Rank(s) + (IF f THEN 1 ELSE 0) + 1
-        /\ Write(ShapeType(s), ShapeLen(s), Len(wres) + 1, f)
+  /\ \/ \E s \in Shapes, f \in BOOLEAN :
+          /\ plan > 0 => PlanItem(plan, Len(wres) + 1) = 2 * Rank(s) + (IF f THEN 1 ELSE 0) + 1
+          /\ Write(ShapeType(s), ShapeLen(s), Len(wres) + 1, f)
+     \/ \E k \in PadKs :
+          /\ plan > 0 => PlanItem(plan, Len(wres) + 1) = 60 + k
+          /\ (IF Len(wres) = 0 THEN TRUE ELSE wres[Len(wres)].pad = 0)   \* never two runs of raw padding in a row
+          /\ RawPad(k)
 
 MCStart       == StartMC /\ UNCHANGED <<cls, cutm>>
 MCRdHandshake == RdHandshake /\ UNCHANGED <<cls, cutm, plan>>
